@@ -215,7 +215,11 @@ def alwaysOkCore (x : PX) : Bool :=
   -- the streams stay short
   (decide (x.p.qcs.length ≤ 5) && decide (x.p.qsc.length ≤ 5))
 
-def alwaysOk (x : PX) : Bool := alwaysOkCore x && pendingKept x
+/-- a cancellation that took effect (the server was waiting in the hello phase) is final: neither side completes -/
+def cancelFinal (x : PX) : Bool :=
+  !x.cancelled || (!x.p.c.st.isComplete && !x.p.s.st.isComplete && x.setC.isZero && x.setS.isZero)
+
+def alwaysOk (x : PX) : Bool := alwaysOkCore x && pendingKept x && cancelFinal x
 
 /-- the facts of C03, as a decidable predicate on one state -/
 def propsOk (x : PX) : Bool :=
